@@ -84,6 +84,7 @@ def _timeout_of(spec):
 def _env():
     e = dict(os.environ)
     e["CARGO_NET_OFFLINE"] = "true"
+    e["CARGO_INCREMENTAL"] = "0"   # cloned target dirs + incremental caches race ("failed to move dependency graph")
     e.pop("RUSTFLAGS", None)
     return e
 
@@ -237,6 +238,10 @@ def _decide(run, crate, spec, ob, slot):
     rc, out, dt = crate.kani(slot, spec["harness"], spec.get("flags", []), tmo)
     ob.queries += 1
     r = parse_output(out)
+    if r["compile_error"]:          # transient cargo/rustc failures (file locks, stale caches): one retry
+        rc, out, dt = crate.kani(slot, spec["harness"], spec.get("flags", []), tmo, tag=".retry")
+        ob.queries += 1
+        r = parse_output(out)
     vt = r["verification_time"] if r["verification_time"] is not None else dt
     stubs = r["stubs"]
     ob.kani = dict(wall_s=round(dt, 2), verification_s=r["verification_time"], checks=r["n_checks"],
